@@ -220,7 +220,9 @@ Fixpoint indexed {A} (i : nat) (l : list A) : list (nat * A) :=
    2 a query result changed over a segment but no change of the segment reported the query affected
    3 Events reports affected although neither the old nor the new key matches the query
    4 a query run inside a callback does not see the mutation (result <> scan of the values after it)
-   5 a subscribed client is not coherent with a fresh get after the segment *)
+   5 a subscribed client is not coherent with a fresh get after the segment
+   6 after Flush a query does not return the scan of the values the store holds (the
+     index lost or kept entries: index updates applied out of commit order) *)
 Fixpoint viol_segs (qs : list qd) (hon : bool) (subs : list sub) (st : vstore val)
                    (prev : list outcome) (fresh_prev : list (option rvalue)) (segs : list segment) : list N :=
   match segs with
@@ -242,6 +244,7 @@ Fixpoint viol_segs (qs : list qd) (hon : bool) (subs : list sub) (st : vstore va
     (if seen_ok cb0 && seen_ok cb1 then [] else [4]) ++
     (if negb hon || forallb (fun p => let '(i, (s, (b, f))) := p in orv_eqb (view_after sg i s b f) f)
                             (indexed 0 (combine subs (combine fresh_prev (sg_fresh sg)))) then [] else [5]) ++
+    (if outcomes_eqb (map (spec_on (fold_left apply_change cs st)) qs) (sg_results sg) then [] else [6]) ++
     viol_segs qs hon subs (fold_left apply_change cs st) (sg_results sg)
               (if hon then sg_fresh sg else fresh_prev) r
   end.
